@@ -270,17 +270,44 @@ Definition xml_escape_char (c : char) : text :=
   else [c].
 Definition xml_escape (t : text) : text := concat (map xml_escape_char t).
 
-(* an unescaper for exactly these five entities (used to state injectivity) *)
+(* an unescaper for exactly these five entities (used to state that escaping loses nothing) *)
 Fixpoint xml_unescape (t : text) : text :=
   match t with
   | [] => []
-  | 38 :: 108 :: 116 :: 59 :: t' => 60 :: xml_unescape t'
-  | 38 :: 103 :: 116 :: 59 :: t' => 62 :: xml_unescape t'
-  | 38 :: 113 :: 117 :: 111 :: 116 :: 59 :: t' => 34 :: xml_unescape t'
-  | 38 :: 97 :: 112 :: 111 :: 115 :: 59 :: t' => 39 :: xml_unescape t'
-  | 38 :: 97 :: 109 :: 112 :: 59 :: t' => 38 :: xml_unescape t'
-  | c :: t' => c :: xml_unescape t'
+  | c :: t' =>
+      if c =? 38 then
+        match t' with
+        | 108 :: 116 :: 59 :: r => 60 :: xml_unescape r
+        | 103 :: 116 :: 59 :: r => 62 :: xml_unescape r
+        | 113 :: 117 :: 111 :: 116 :: 59 :: r => 34 :: xml_unescape r
+        | 97 :: 112 :: 111 :: 115 :: 59 :: r => 39 :: xml_unescape r
+        | 97 :: 109 :: 112 :: 59 :: r => 38 :: xml_unescape r
+        | _ => c :: xml_unescape t'
+        end
+      else c :: xml_unescape t'
   end.
+
+(* well-formedness of an XML attribute value delimited by double quotes: no raw
+   '<', no raw double quote, every '&' starts one of the five predefined entities *)
+Fixpoint wf_attr (t : text) : bool :=
+  match t with
+  | [] => true
+  | c :: t' =>
+      if c =? 38 then
+        match t' with
+        | 108 :: 116 :: 59 :: r => wf_attr r
+        | 103 :: 116 :: 59 :: r => wf_attr r
+        | 113 :: 117 :: 111 :: 116 :: 59 :: r => wf_attr r
+        | 97 :: 112 :: 111 :: 115 :: 59 :: r => wf_attr r
+        | 97 :: 109 :: 112 :: 59 :: r => wf_attr r
+        | _ => false
+        end
+      else if (c =? 60) || (c =? 34) then false else wf_attr t'
+  end.
+
+(* characters that have no representation at all in an XML 1.0 document *)
+Definition xml_forbidden (c : char) : bool :=
+  (c <? 32) && negb (c =? 9) && negb (c =? 10) && negb (c =? 13) || (c =? 65534) || (c =? 65535).
 Local Close Scope N_scope.
 
 (* ------------------------------------------------------------------ *)
